@@ -80,7 +80,7 @@ CHECKS = {
                 "across reported overruns, shortfalls and bad values - so assert_done finds its region, the session loop's bound is never hit and the stream loop terminates; "
                 "c08_warn_no_crash_type/_command, c08_warn_crash_msg, c08_warn_outcomes); (3) tiling: the input consumed is, in order, one segment per event shown - a field's bytes at its declared width, "
                 "the skipped tail (exactly max-already) of an overrun region, the padding of a short one (AcctW, c08_tiling); (4) the recovery steps c08_skip_exceeded / c08_pad_subceeded; "
-                "(5) value-only runs re-encode to the input (C02.c02_warn_value_only), the first problem is the first warning (C07), and in every run every field with a disallowed value is shown and directly followed by exactly its warning, value warnings standing nowhere else (ValueWarn.lean: Annot; c08_value_warning_follows_its_field, c08_offending_field_is_warned). Side conditions on the tables are kernel-decided over the tables regenerated from /repo. "
+                "(5) value-only runs re-encode to the input (C02.c02_warn_value_only), the first problem is the first warning (C07), and in every run every field with a disallowed value is shown and directly followed by exactly its warning, value warnings standing nowhere else (ValueWarn.lean: Annot; c08_value_warning_follows_its_field, c08_offending_field_is_warned); (6) the value-only clause itself: whenever the lenient interpretation (strict decoding under the tables with every declared set widened to the field's width, TpmModel/Relax.lean) accepts an input, warn mode returns the same object and its trace minus the value warnings is the lenient trace, with no other warnings (Lenient.lean: a simulation for every walker; c08_lenient_object/_events/_only_value_warnings; tied to the code by the DECL correspondence). Side conditions on the tables are kernel-decided over the tables regenerated from /repo. "
                 "The model is tied to the code by warn-mode correspondence (fault-enumerated, double-fault, nested, mutated and arbitrary inputs) and the same clauses are monitored on the implementation's own observations. "
                 "Nine genuine defects were repaired (known_findings.jsonl); one remains a KNOWN-FINDING.",
         "technique": "Lean 4 proofs by mutual structural induction over all layouts and walkers (invariants WI, WC, AcctW, PI) + kernel-decided table side conditions + warn-mode correspondence + monitors",
